@@ -1560,7 +1560,7 @@ class TimePoint:
         duration = other
         if duration.get_is_in_weeks():
             duration = duration.to_days()
-        new = self._copy()
+        new = self._normalised()._copy()
         if duration._seconds:
             if new._second_of_minute is None:
                 if new._minute_of_hour is None:
@@ -1618,6 +1618,16 @@ class TimePoint:
                     new._week_of_year = max_weeks_in_year
         return new
 
+    def _normalised(self) -> "TimePoint":
+        """Return this TimePoint, or if it is in the 24:00 end-of-day form,
+        the equivalent 00:00 of the following day."""
+        if (self._truncated or
+                self._hour_of_day != CALENDAR.HOURS_IN_DAY):
+            return self
+        new = self._copy()
+        new._tick_over()
+        return new
+
     def _copy(self) -> "TimePoint":
         """Returns an unlinked copy of this instance."""
         new_timepoint = TimePoint(is_empty_instance=True)
@@ -1670,6 +1680,7 @@ class TimePoint:
                     return _operator_map[op](self_attr, other_attr)
             return True
         other = other.to_time_zone(self._time_zone)
+        self = self._normalised()
         if self.get_is_calendar_date():
             my_date = self.get_calendar_date()
             other_date = other.get_calendar_date()
@@ -1700,6 +1711,7 @@ class TimePoint:
             if other > self:
                 return -1 * (other - self)
             other = other.to_time_zone(self._time_zone)
+            self = self._normalised()
             my_year, my_day_of_year = self.get_ordinal_date()
             other_year, other_day_of_year = other.get_ordinal_date()
             diff_day = my_day_of_year - other_day_of_year
